@@ -183,6 +183,9 @@ let spec_searches (c : case) =
 (* ---- byte-wise ---- *)
 let bw_searches (a : M.z M.bw_automaton) (c : case) pre =
   let sget = M.bw_sget a and oget = M.bw_oget a and ns = M.bw_nslots a in
+  (* a haystack passed by value (moved with the iterator) is searched like the borrowed slice: the
+     model has one search function for both *)
+  List.iteri (fun j h -> if List.length h <= 24 then pr "%sBYVAL %d 1\n" pre j) c.hays;
   List.iteri (fun j h ->
       let hn = nlist h in
       let small = List.length h <= 48 in
